@@ -1,5 +1,5 @@
 use crate::rt::object;
-use crate::rt::{self, Access, Location, Synchronize, VersionVec};
+use crate::rt::{self, Access, Location, Synchronize, VersionVec, MAX_THREADS};
 
 use std::sync::atomic::Ordering::{Acquire, Release, SeqCst};
 
@@ -23,10 +23,15 @@ pub(super) struct State {
     synchronize: Synchronize,
 
     /// Tracks access to the arc object
-    last_ref_inc: Option<Access>,
+    /// Last increment of the reference count by each thread. Increments are
+    /// not dependent with each other, so the last one of a single thread says
+    /// nothing about those of the other threads.
+    last_ref_inc: [Option<Access>; MAX_THREADS],
     last_ref_dec: Option<Access>,
-    last_ref_inspect: Option<Access>,
-    last_ref_modification: Option<RefModify>,
+
+    /// Last inspection (`strong_count`) of the reference count by each thread.
+    /// Increments and decrements are dependent with all of them.
+    last_ref_inspect: [Option<Access>; MAX_THREADS],
 }
 
 /// Actions performed on the Arc
@@ -46,18 +51,6 @@ pub(super) enum Action {
     Inspect,
 }
 
-/// Actions which modify the Arc's reference count
-///
-/// This is used to ascertain dependence for Action::Inspect
-#[derive(Debug, Copy, Clone, PartialEq)]
-enum RefModify {
-    /// Corresponds to Action::RefInc
-    RefInc,
-
-    /// Corresponds to Action::RefDec
-    RefDec,
-}
-
 impl Arc {
     pub(crate) fn new(location: Location) -> Arc {
         rt::execution(|execution| {
@@ -65,10 +58,9 @@ impl Arc {
                 ref_cnt: 1,
                 allocated: location,
                 synchronize: Synchronize::new(),
-                last_ref_inc: None,
+                last_ref_inc: Default::default(),
                 last_ref_dec: None,
-                last_ref_inspect: None,
-                last_ref_modification: None,
+                last_ref_inspect: Default::default(),
             });
 
             trace!(?state, %location, "Arc::new");
@@ -187,30 +179,76 @@ impl State {
         }
     }
 
-    pub(super) fn last_dependent_access(&self, action: Action) -> Option<&Access> {
-        match action {
+    /// The accesses `action` is dependent with: an increment with the
+    /// inspections, a decrement with the decrements and the inspections, an
+    /// inspection with the increments and the decrements.
+    fn dependent_accesses(&self, action: Action) -> impl Iterator<Item = &Access> {
+        let dec = match action {
             // RefIncs are not dependent w/ RefDec, only inspections
-            Action::RefInc => self.last_ref_inspect.as_ref(),
-            Action::RefDec => self.last_ref_dec.as_ref(),
-            Action::Inspect => match self.last_ref_modification {
-                Some(RefModify::RefInc) => self.last_ref_inc.as_ref(),
-                Some(RefModify::RefDec) => self.last_ref_dec.as_ref(),
-                None => None,
-            },
+            Action::RefInc => None,
+            _ => self.last_ref_dec.as_ref(),
+        };
+
+        let others = match action {
+            Action::Inspect => &self.last_ref_inc[..],
+            _ => &self.last_ref_inspect[..],
+        };
+
+        dec.into_iter().chain(others.iter().flatten())
+    }
+
+    /// Returns the most recent access that `action`, performed by a thread
+    /// whose DPOR clock is `version`, is dependent with and that did not happen
+    /// before it (or any dependent access if all of them happened before).
+    pub(super) fn last_dependent_access(
+        &self,
+        action: Action,
+        version: &VersionVec,
+    ) -> Option<&Access> {
+        let mut ret: Option<&Access> = None;
+        let mut any: Option<&Access> = None;
+
+        for access in self.dependent_accesses(action) {
+            any = Some(access);
+
+            if access.happens_before(version) {
+                continue;
+            }
+
+            if ret.map_or(true, |ret| ret.path_id() < access.path_id()) {
+                ret = Some(access);
+            }
+        }
+
+        ret.or(any)
+    }
+
+    /// Joins the DPOR clocks of all accesses `action` is dependent with.
+    pub(super) fn join_dependent_accesses(&self, action: Action, version: &mut VersionVec) {
+        for access in self.dependent_accesses(action) {
+            version.join(access.version());
         }
     }
 
-    pub(super) fn set_last_access(&mut self, action: Action, path_id: usize, version: &VersionVec) {
+    pub(super) fn set_last_access(
+        &mut self,
+        action: Action,
+        thread_id: crate::rt::thread::Id,
+        path_id: usize,
+        version: &VersionVec,
+    ) {
         match action {
-            Action::RefInc => {
-                self.last_ref_modification = Some(RefModify::RefInc);
-                Access::set_or_create(&mut self.last_ref_inc, path_id, version)
-            }
-            Action::RefDec => {
-                self.last_ref_modification = Some(RefModify::RefDec);
-                Access::set_or_create(&mut self.last_ref_dec, path_id, version)
-            }
-            Action::Inspect => Access::set_or_create(&mut self.last_ref_inspect, path_id, version),
+            Action::RefInc => Access::set_or_create(
+                &mut self.last_ref_inc[thread_id.as_usize()],
+                path_id,
+                version,
+            ),
+            Action::RefDec => Access::set_or_create(&mut self.last_ref_dec, path_id, version),
+            Action::Inspect => Access::set_or_create(
+                &mut self.last_ref_inspect[thread_id.as_usize()],
+                path_id,
+                version,
+            ),
         }
     }
 }
